@@ -359,7 +359,9 @@ def history(seed: int, nsteps: int = 10, sources=None) -> list:
                     # (the file or folder is replaced: nothing of the earlier save may survive)
                     again = sorted(t for t, (pk, _b) in disk_targets.items() if pk == packaging)
                     base = None
-                    if again and rng.random() < (0.9 if resave else 0.34):
+                    # (not while a clone is alive: two documents backed by the same file are not independent of what is written
+                    # to that file, clone or not - outside C10)
+                    if again and "twin" not in handles and rng.random() < (0.9 if resave else 0.34):
                         tkey = rng.choice(again)
                         base = disk_targets[tkey][1]
                         ev["again"] = True
